@@ -1,6 +1,6 @@
 (* C09 -- A silent peer is probed, then disconnected; a live peer never is. *)
 From Coq Require Import ZArith List.
-From SF Require Import Timer Timer_proofs Session Session_proofs.
+From SF Require Import Timer Timer_proofs Timer_loop Session Session_proofs.
 Open Scope Z_scope.
 
 (* the inbound timer's timeout is N + max(1, N/20) seconds *)
@@ -17,7 +17,6 @@ Theorem C09_probe_in_time :
     0 <= T -> 0 < G ->
     dense G from (r + T + G) ticks -> from <= r + T -> start <= from ->
     (forall t, r <= t -> t <= r + T + G -> last_refresh start refs t = r) ->
-    (forall t, t < r -> last_refresh start refs t <= t) ->
     exists t, take_timeout T start refs ticks = Some t /\ t <= r + T + G.
 Proof. exact returns_in_time. Qed.
 Print Assumptions C09_probe_in_time.
@@ -87,3 +86,36 @@ Proof.
     destruct (run_ev_handlers _ hs) as [sx ox] eqn:Ex. inversion E; subst. eapply IH; eassumption.
 Qed.
 Print Assumptions C09_second_expiry_disconnects.
+
+(* ---- many consecutive periods (the probing loop: the same loop with the inbound timeout, refreshed
+   by every inbound message; its first action sends the TestRequest, a second one without a refresh in
+   between disconnects) ---- *)
+
+(* a peer that sends something at least every N seconds is never probed, however long the session lasts *)
+Theorem C09_live_peer_never_probed_many_periods :
+  forall n fuel start refs ticks, 1 <= n ->
+    (forall t, In t ticks -> exists r, (r = start \/ In r refs) /\ r <= t /\ t <= r + out_timeout n) ->
+    loop (in_timeout n) fuel start refs ticks = nil.
+Proof. exact live_peer_loop_never_acts. Qed.
+Print Assumptions C09_live_peer_never_probed_many_periods.
+
+(* no action of the probing loop (TestRequest, disconnect) comes sooner than the inbound timeout after
+   the previous action or after any inbound message before it: an answer in the second period cancels
+   the pending disconnect *)
+Theorem C09_never_early_many_periods :
+  forall T fuel start refs ticks,
+    spaced T start (loop T fuel start refs ticks)
+    /\ forall h, In h (loop T fuel start refs ticks) -> forall r, In r refs -> r <= h -> r + T <= h.
+Proof. exact loop_never_early. Qed.
+Print Assumptions C09_never_early_many_periods.
+
+(* and with a silent peer the loop acts within every stretch of T + G: the probe, then the disconnect *)
+Theorem C09_silent_peer_acted_on :
+  forall T G, 0 <= T -> 0 < G ->
+  forall fuel start refs ticks H,
+    (length ticks <= fuel)%nat ->
+    dense G start H ticks ->
+    forall x, start <= x -> x + T + G <= H ->
+      exists e, (In e refs \/ In e (loop T fuel start refs ticks)) /\ x < e <= x + T + G.
+Proof. exact loop_never_silent. Qed.
+Print Assumptions C09_silent_peer_acted_on.
